@@ -75,6 +75,8 @@ class EngineBase:
         return d
 
     def oblige(self, name, kind, goal, node=None, info=None):
+        if getattr(self, 'building', 0):
+            return      # shape construction of the world: not part of the function under verification
         where = None
         if node is not None and self.fn_stack:
             where = f"{self.fn_stack[-1].file}:{getattr(node, 'lineno', '?')}"
@@ -97,6 +99,9 @@ class EngineBase:
             okz = z3.BoolVal(False)
         else:
             okz = ok
+        if getattr(self, 'building', 0):
+            self.st.assume(okz)
+            return
         if self.declares_raise(exc):
             if not self.branch(okz):
                 raise RaiseSig(exc, implicit=True, node=node)
@@ -146,6 +151,8 @@ class EngineBase:
             return r
         if ty.startswith('obj:'):
             return self.spec.make_object(self, ty[4:])
+        if ty.startswith('tuple:'):
+            return TupleV([self.fresh_of_type(t, f"{base}.{i}") for i, t in enumerate(ty[6:].split(','))])
         if ty == 'none':
             return None
         raise OutOfSubset(f"unknown type {ty}")
@@ -514,6 +521,7 @@ class EngineBase:
             raise OutOfSubset("mutation of a dict that is an entity field")
         kt = self.as_int_term(k)
         has = z3.Select(d.keys, kt)
+        old_keys = d.keys
         d.nk = z3.If(has, d.nk, d.nk + 1)
         d.keys = z3.Store(d.keys, kt, z3.BoolVal(True))
         if d.vkind == 'list':
@@ -526,7 +534,13 @@ class EngineBase:
         elif d.vkind == 'num':
             d.vals = z3.Store(d.vals, kt, self.num(v))
         elif d.vkind == 'bool':
-            d.vals = z3.Store(d.vals, kt, self.truth(v))
+            # ground cardinality fact: number of keys mapped to True (DESIGN 5.5)
+            ct = z3.Function('cardtrue', BoolArr, BoolArr, I)
+            nv = self.truth(v)
+            new_vals = z3.Store(d.vals, kt, nv)
+            self.st.assume(ct(d.keys, new_vals) == ct(old_keys, d.vals)
+                           + z3.If(nv, 1, 0) - z3.If(z3.And(has, z3.Select(d.vals, kt)), 1, 0))
+            d.vals = new_vals
         else:
             if isinstance(v, TupleV):
                 d.vkind = 'pair'
@@ -551,6 +565,8 @@ class EngineBase:
         if vkind == 'num':
             return DictObj(keys, z3.IntVal(0), 'num', vals=z3.K(I, z3.RealVal(0)), label=label)
         if vkind == 'bool':
+            ct = z3.Function('cardtrue', BoolArr, BoolArr, I)
+            self.st.assume(ct(keys, z3.K(I, z3.BoolVal(False))) == 0)
             return DictObj(keys, z3.IntVal(0), 'bool', vals=z3.K(I, z3.BoolVal(False)), label=label)
         return DictObj(keys, z3.IntVal(0), vkind, vals=z3.K(I, z3.IntVal(0)), label=label)
 
